@@ -15,7 +15,7 @@ def run(c):
         c.rng.shuffle(cfgs)
         pick, cnt = [], {}
         for g in cfgs:
-            ks = [("size", g["size"]), ("ct", g["ct"]), ("key", g["key"]), ("issuer", g["issuer"]), ("serial", g["serial"])]
+            ks = [("size", g["size"]), ("ct", g["ct"]), ("shape", g["ct"] + g["shape"]), ("key", g["key"]), ("issuer", g["issuer"]), ("serial", g["serial"])]
             if any(cnt.get(k, 0) < 5 for k in ks) or len(pick) < 60:
                 pick.append(g)
                 for k in ks:
